@@ -7,7 +7,7 @@ from .. import common as C
 from .. import tys as T
 from ..tys import Field, Variant, Item
 
-THEOREMS = []
+THEOREMS = ["c16_never_accepted", "c16_container_rejected", "c16_field_attrs_rejected", "c16_variant_attrs_rejected"]
 
 REJ = os.path.join(C.VERIF, "harness_reject")
 
